@@ -43,12 +43,20 @@ MAX_SAMPLES = 8
 # known findings
 
 def load_known(prop):
-    path = os.path.join(core.VERIF_DIR, 'known_findings.json')
-    if not os.path.exists(path):
-        return []
-    with open(path) as f:
-        data = json.load(f)
-    return [e for e in data.get('findings', []) if e.get('property') == prop]
+    out = []
+    paths = [os.path.join(core.VERIF_DIR, 'known_findings.json')]
+    # per-property fragments (same format) are merged in; convenient while
+    # several checks are being developed side by side
+    paths += sorted(glob.glob(os.path.join(core.VERIF_DIR,
+                                           'known_findings.d', '*.json')))
+    for path in paths:
+        if not os.path.exists(path):
+            continue
+        with open(path) as f:
+            data = json.load(f)
+        out += [e for e in data.get('findings', [])
+                if e.get('property') == prop]
+    return out
 
 
 def match_known(sig, known):
